@@ -459,6 +459,8 @@ func makerByName(n string) lexerMaker {
 		return jsonDefMaker
 	case "json-rules":
 		return jsonRulesMaker
+	case "json-source":
+		return jsonSourceMaker
 	case "simple":
 		return simpleMaker
 	case "generated":
@@ -503,6 +505,26 @@ func jsonDefMaker(c *rawCase) (lexer.Definition, string) {
 	}
 	src["LaterState"] = []lexer.Rule{{Name: "LaterRule", Pattern: `q`}}
 	b, err := json.Marshal(d)
+	if err != nil {
+		return nil, "marshal: " + err.Error()
+	}
+	var rules lexer.Rules
+	if err := json.Unmarshal(b, &rules); err != nil {
+		return nil, "unmarshal: " + err.Error()
+	}
+	d2, v := safeNew(rules)
+	if d2 == nil {
+		return nil, "rebuilt: " + v
+	}
+	return d2, v
+}
+
+// jsonSourceMaker: the rule set as the user wrote it (Include rules not yet expanded) through JSON.
+func jsonSourceMaker(c *rawCase) (lexer.Definition, string) {
+	if d, v := safeNew(c.rules()); d == nil {
+		return nil, v
+	}
+	b, err := json.Marshal(c.rules())
 	if err != nil {
 		return nil, "marshal: " + err.Error()
 	}
